@@ -26,6 +26,9 @@ pub enum Case {
     /// e as a fraction of the bounding-box diagonal
     Simplify2 { spec: Curve2Spec, e: f64 },
     Simplify3 { spec: Curve3Spec, e: f64 },
+    /// a long, sparsely sampled, nearly straight curve: interior vertices at fractions t of the length, offset sideways by
+    /// h tolerances (rotated about the axis by rot in 3D); tolerance e_rel of the length
+    SimplifyFlat { dim3: bool, len: f64, e_rel: f64, dir: P3, origin: P3, inner: Vec<(f64, f64, f64)> },
     /// raw RDP on a point list (may double back past chord ends)
     Rdp2 { pts: Vec<P2>, e: f64 },
     /// max as a multiple of the median gap
@@ -46,13 +49,13 @@ impl Property for C05 {
     type Case = Case;
     const ID: &'static str = "C05";
     fn rule() -> &'static str {
-        "cases: resample (by count 2..200, by spacing L/200..0.9L, by max spacing L/200..1.5L) of 2D/3D curves with total length log-uniform over ~1e-3..1e4 (scale 1e-3..1e3), open/closed, uneven vertex density; simplify with tolerance 1e-4..0.3 of the bounding box on curves and on raw point lists that double back past their chord ends; fill_gaps with max 0.05..2 of the median gap. Oracle: resampled vertices equal the harness walk of the source at the expected arc positions (so they lie on the source, span it, and are equally spaced / centred); simplified vertices are a subsequence keeping both ends and every discarded vertex is within e of the simplified polyline; gap filling keeps originals in order with collinear evenly spaced inserts and no gap above max. Non-trivial: total length outside [0.5, 2], or a closed curve, or a simplification that discards at least one vertex, or a gap fill that inserts points. Distinct = distinct canonical JSON."
+        "cases: resample (by count 2..200, by spacing L/200..0.9L, by max spacing L/200..1.5L) of 2D/3D curves with total length log-uniform over ~1e-3..1e4 (scale 1e-3..1e3), open/closed, uneven vertex density; simplify with tolerance 1e-4..0.3 of the bounding box on curves and on raw point lists that double back past their chord ends, and with tolerance 1e-11..1e-6 of the length on sparse nearly straight curves whose interior vertices stand 0.2..50 tolerances off the chord; fill_gaps with max 0.05..2 of the median gap. Oracle: resampled vertices equal the harness walk of the source at the expected arc positions (so they lie on the source, span it, and are equally spaced / centred); simplified vertices are a subsequence keeping both ends and every discarded vertex is within e of the simplified polyline; gap filling keeps originals in order with collinear evenly spaced inserts and no gap above max. Non-trivial: total length outside [0.5, 2], or a closed curve, or a simplification that discards at least one vertex, or a gap fill that inserts points. Distinct = distinct canonical JSON."
     }
     fn cases(t: Tier) -> u32 {
         t.pick(2_400_000, 20_000_000)
     }
     fn expected_labels() -> Vec<&'static str> {
-        vec!["resample2", "resample3", "by_count", "by_spacing", "by_max_spacing", "closed", "length<1", "length>1", "simplify2", "simplify3", "rdp_raw", "discarded>0", "fill_gaps", "inserted>0", "max_spacing>=L"]
+        vec!["resample2", "resample3", "by_count", "by_spacing", "by_max_spacing", "closed", "length<1", "length>1", "simplify2", "simplify3", "rdp_raw", "discarded>0", "fill_gaps", "inserted>0", "max_spacing>=L", "simplify_flat", "flat_with_kink_above_tolerance"]
     }
     fn strategy(_t: Tier) -> BoxedStrategy<Case> {
         let raw = (polyline2(3, 40, 1.0), prop::collection::vec((any::<u16>(), unif(-0.5, 1.5)), 0..4), logu(-4.0, -0.5)).prop_map(|((_, mut pts), extra, e)| {
@@ -72,6 +75,8 @@ impl Property for C05 {
             2 => (curve2_spec(3, 60, -3.0, 3.0, false), prop_oneof![4 => logu(-4.0, -0.5), 1 => logu(-0.5, 0.5)]).prop_map(|(spec, e)| Case::Simplify2 { spec, e }),
             1 => (curve3_spec(3, 60, -3.0, 3.0, false), prop_oneof![4 => logu(-4.0, -0.5), 1 => logu(-0.5, 0.5)]).prop_map(|(spec, e)| Case::Simplify3 { spec, e }),
             1 => raw,
+            1 => (any::<bool>(), logu(-1.0, 3.5), logu(-11.0, -6.0), unit3(), p3(1.0), prop::collection::vec((unif(0.02, 0.98), prop_oneof![logu(-0.7, 1.7), logu(-0.7, 1.7).prop_map(|h| -h)], unif(0.0, 6.2832)), 1..8))
+                .prop_map(|(dim3, len, e_rel, dir, origin, inner)| Case::SimplifyFlat { dim3, len, e_rel, dir, origin, inner }),
             1 => (polyline2(2, 30, 1.0), unif(0.05, 2.0)).prop_map(|((_, pts), max)| Case::FillGaps2 { pts, max }),
             1 => (polyline3(2, 30, 1.0), unif(0.05, 2.0)).prop_map(|((_, pts), max)| Case::FillGaps3 { pts, max }),
         ]
@@ -83,6 +88,7 @@ impl Property for C05 {
             Case::Resample3 { spec, mode } => resample3(spec, mode),
             Case::Simplify2 { spec, e } => simplify2(spec, *e),
             Case::Simplify3 { spec, e } => simplify3(spec, *e),
+            Case::SimplifyFlat { dim3, len, e_rel, dir, origin, inner } => simplify_flat(*dim3, *len, *e_rel, dir, origin, inner),
             Case::Rdp2 { pts, e } => rdp_raw(pts, *e),
             Case::FillGaps2 { pts, max } => fill(&crate::oracle::to_p2(pts), *max),
             Case::FillGaps3 { pts, max } => fill(&crate::oracle::to_p3(pts), *max),
@@ -450,6 +456,74 @@ fn simplify3(spec: &Curve3Spec, efrac: f64) -> Verdict {
         Err(f) => return Verdict::Fail(f),
     }
     len_labels(&mut cx, b.curve.length(), false);
+    cx.pass()
+}
+
+/// Simplification of long, sparse, nearly straight curves with a tolerance many orders below the length: a vertex that
+/// stands off the chord by more than e must survive however long the chord is.
+fn simplify_flat(dim3: bool, len: f64, e_rel: f64, dir: &P3, origin: &P3, inner: &[(f64, f64, f64)]) -> Verdict {
+    let mut cx = Ctx::new();
+    cx.label("simplify_flat");
+    let e = e_rel * len;
+    let mut ts: Vec<(f64, f64, f64)> = inner.to_vec();
+    ts.sort_by(|a, b| a.0.partial_cmp(&b.0).unwrap());
+    ts.dedup_by(|a, b| (a.0 - b.0).abs() < 1e-3);
+    let kink = ts.iter().any(|t| t.1.abs() > 1.5);
+    if dim3 {
+        let u = v3(dir).normalize();
+        let helper = if u.x.abs() < 0.9 { engeom::Vector3::x() } else { engeom::Vector3::y() };
+        let n1 = u.cross(&helper).normalize();
+        let n2 = u.cross(&n1);
+        let a = engeom::Point3::from(v3(origin) * len);
+        let mut pts = vec![a];
+        for (t, h, rot) in &ts {
+            pts.push(a + u * (t * len) + (n1 * rot.cos() + n2 * rot.sin()) * (h * e));
+        }
+        pts.push(a + u * len);
+        let c = match engeom::Curve3::from_points(&pts, e / 16.0) {
+            Ok(c) => c,
+            Err(m) => return Verdict::fail("C05/from_points/rejected_valid", m.to_string()),
+        };
+        let src: Vec<Pt<3>> = c.points().to_vec();
+        let r = match guarded(|| c.simplify(e)) {
+            Ok(r) => r,
+            Err(m) => return Verdict::fail("C05/simplify_flat3/panic", m),
+        };
+        match validate_simplified("simplify_flat3", &src, r.points(), e, e / 16.0) {
+            Ok(d) => cx.label_if(d > 0, "discarded>0"),
+            Err(f) => return Verdict::Fail(f),
+        }
+    } else {
+        let u = engeom::Vector2::new(dir[0], dir[1]);
+        if u.norm() < 1e-3 {
+            return Verdict::Discard("direction along z");
+        }
+        let u = u.normalize();
+        let n = engeom::Vector2::new(-u.y, u.x);
+        let a = engeom::Point2::new(origin[0] * len, origin[1] * len);
+        let mut pts = vec![a];
+        for (t, h, _) in &ts {
+            pts.push(a + u * (t * len) + n * (h * e));
+        }
+        pts.push(a + u * len);
+        let c = match engeom::Curve2::from_points(&pts, e / 16.0, false) {
+            Ok(c) => c,
+            Err(m) => return Verdict::fail("C05/from_points/rejected_valid", m.to_string()),
+        };
+        let src: Vec<Pt<2>> = c.points().to_vec();
+        let r = match guarded(|| c.simplify(e)) {
+            Ok(r) => r,
+            Err(m) => return Verdict::fail("C05/simplify_flat2/panic", m),
+        };
+        match validate_simplified("simplify_flat2", &src, r.points(), e, e / 16.0) {
+            Ok(d) => cx.label_if(d > 0, "discarded>0"),
+            Err(f) => return Verdict::Fail(f),
+        }
+    }
+    cx.label_if(kink, "flat_with_kink_above_tolerance");
+    if kink {
+        cx.nontrivial();
+    }
     cx.pass()
 }
 
